@@ -32,6 +32,8 @@ PROP = "C11"
 TRACE_CLAUSES = ("LoadedTextIsNormalisedFile", "NotRewrittenWhenNoFix", "WrittenTextIsFixedText", "BomKept",
                  "OnlyPatchedRangesDiffer", "OnlyFixedRangesDiffer", "UntouchedBytesPreserved", "UndecodableBytesPreserved")
 TCONST = {"L": 1, "MaxP": 0, "MaxSO": 0, "NBuf": 1, "NTexts": 3, "SOKinds": 2, "EmitOn": False, "NParts": 1, "Part": 0}
+# the unit / character operators of PatchesTrace recurse once per character: templated files are a few hundred long
+XSS = {"JAVA_TOOL_OPTIONS": "-Xss512m"}
 MODEL = {"L": 3, "MaxP": 2, "MaxSO": 1, "NBuf": 1, "NTexts": 2, "SOKinds": 1, "NParts": 1, "Part": 0, "EmitOn": False}
 
 # ------------------------------------------------------------------ generated files
@@ -92,6 +94,81 @@ def make_file(k: int, rnd: random.Random):
             "attrs": {"enc": label, "nl": nlk, "tail": tailk, "kind": kind, "bad": bad.hex() if bad else None}}
 
 
+# ------------------------------------------------------------------ templated files
+JCTX = "[sqlfluff:templater:jinja:context]\ncol = colx\ntbl = tblx\ncond = True\nitems = 123\nempty =\nsuffix =\n"
+TRULES = ["LT01", "LT02", "LT12", "CP01", "all", "LT01,LT02,LT12,CP01", "LT02,LT09", "layout"]
+
+
+def empty_expr_templates(n: int, rnd: random.Random):
+    """Jinja sources with expressions that render to '' inside / next to tokens, on lines whose indent, spacing
+    or case a rule will change."""
+    E = ["{{ empty }}", "{{suffix}}", "{{- empty }}", "{{ empty -}}", "{{ '' }}"]
+    out = []
+    for k in range(n):
+        e = rnd.choice(E)
+        shape = k % 8
+        if shape == 0:      # quoted token with an empty expression inside, line not indented (LT02 inserts the indent)
+            t = f"SELECT\n'abc{e}def' AS c\nFROM tbl\n"
+        elif shape == 1:    # same, identifier
+            t = f"SELECT\n    a,\nco{e}l AS d\nFROM tbl\n"
+        elif shape == 2:    # wrong indent to be resized
+            t = f"SELECT\n        'x{e}y' AS c,\n  b\nFROM tbl\n"
+        elif shape == 3:    # spacing violations around the token
+            t = f"SELECT  'abc{e}def'  ,b from  tbl{e}\n"
+        elif shape == 4:    # empty expression at the start / end of a token and of a line
+            t = f"SELECT\n{e}a,\nb{e}\nfrom tbl\n"
+        elif shape == 5:    # inside a loop / conditional body
+            t = f"SELECT\n    a\n{{% for x in [1, 2] %}}\n,'v{e}{{{{ x }}}}' AS c{{{{ x }}}}\n{{% endfor %}}\nFROM tbl\n"
+        elif shape == 6:    # keyword case + trailing newline variants
+            t = f"select 'abc{e}def' as c from tbl where d = 'x{e}'" + rnd.choice(["", "\n\n", "  \n"])
+        else:               # several empty expressions in one token, whitespace-control neighbours
+            t = f"SELECT\n'a{e}b{rnd.choice(E)}c' AS c\n{{%- if cond %}}\n,d\n{{%- endif %}}\nFROM tbl\n"
+        out.append((f"emp{k}_s{shape}", t))
+    return out
+
+
+def make_templated(k: int, rnd: random.Random, pool):
+    """One templated file on disk: source from `pool`, rule set, and some of the encoding / newline variants."""
+    name, templater, text, cfg_extra = pool[k % len(pool)]
+    rules = TRULES[(k + k // len(TRULES)) % len(TRULES)]
+    var = k % 7
+    label, cfg_enc, codec, bom, extra = ("utf-8", None, "utf-8", b"", "")
+    if var == 3:
+        label, cfg_enc, codec, bom, extra = ("utf-8-cfg", "utf-8", "utf-8", b"", "é€")
+    elif var == 4:
+        label, cfg_enc, codec, bom, extra = ("utf-16-le", None, "utf-16-le", codecs.BOM_UTF16_LE, "é")
+    elif var == 5:
+        label, cfg_enc, codec, bom, extra = ("utf-8-sig", None, "utf-8", codecs.BOM_UTF8, "é")
+    if extra and "\n" in text and templater == "jinja":
+        i = text.index("\n")
+        text = text[:i] + " -- " + extra + text[i:]
+    nlk = "crlf" if var == 6 else ("cr" if (var == 2 and k % 3 == 0) else "lf")
+    if nlk != "lf":
+        text = text.replace("\n", NEWLINES[nlk])
+    core = "" if templater == "jinja" else f"templater = {templater}\n"
+    return {"name": f"t{k}_{name}_{label}_{nlk}.sql".replace("/", "_"), "data": bom + text.encode(codec), "cfg_encoding": cfg_enc,
+            "kind": "templated", "rules": rules, "cfg_extra": core + cfg_extra,
+            "attrs": {"enc": label, "nl": nlk, "tail": "-", "kind": "templated", "bad": None, "templater": templater,
+                      "rules": rules, "shape": name.split("_")[-1]}}
+
+
+def templated_pool(n: int, rnd: random.Random):
+    pool = []
+    for name, t in empty_expr_templates(max(8, n // 3), rnd):
+        pool.append((name, "jinja", t, JCTX))
+    for name, t in P.jinja_templates(max(11, n // 2), rnd):
+        pool.append((name, "jinja", t, JCTX))
+    for name, templater, sqlt, tcfg in P.other_templates(max(4, n // 8), rnd):
+        sec = tcfg["templater"][templater]
+        if templater == "python":
+            extra = "[sqlfluff:templater:python:context]\n" + "".join(f"{a} = {b}\n" for a, b in sec["context"].items())
+        else:
+            extra = "[sqlfluff:templater:placeholder]\n" + "".join(f"{a} = {b}\n" for a, b in sec.items())
+        pool.append((name, templater, sqlt, extra))
+    rnd.shuffle(pool)
+    return pool
+
+
 # ------------------------------------------------------------------ recording
 def _run_one(spec: dict, entry: str, tid: str) -> dict:
     from sqlfluff.core import FluffConfig, Linter
@@ -104,9 +181,10 @@ def _run_one(spec: dict, entry: str, tid: str) -> dict:
             fh.write(spec["data"])
         os.utime(path, ns=(1_500_000_000_000_000_000, 1_500_000_000_000_000_000))
         with open(os.path.join(d, ".sqlfluff"), "w") as fh:
-            fh.write("[sqlfluff]\ndialect = ansi\nrules = LT01,LT12,CP01,CP02\n")
+            fh.write(f"[sqlfluff]\ndialect = ansi\nrules = {spec.get('rules') or 'LT01,LT12,CP01,CP02'}\n")
             if spec["cfg_encoding"]:
                 fh.write(f"encoding = {spec['cfg_encoding']}\n")
+            fh.write(spec.get("cfg_extra") or "")
         st0 = os.stat(path)
         loads = []
         orig_load = Linter.load_raw_file_and_config
@@ -173,14 +251,21 @@ def _run_one(spec: dict, entry: str, tid: str) -> dict:
     uout, bout = P.decoding_units(after, enc)
     rewritten = (st0.st_ino != st1.st_ino) or (st0.st_mtime_ns != st1.st_mtime_ns) or (after != spec["data"])
     uniq = sorted({(a, b) for a, b in ranges})
-    events = [{"ev": "Load", "units": uin, "bom": bin_}, {"ev": "Fixes", "ranges": [list(r) for r in uniq]}] + list(rec.events) + \
-             [{"ev": "Write", "units": uout, "bom": bout, "rewritten": rewritten}]
     rebuilt = [e for e in rec.events if e["ev"] == "Rebuild"]
+    merged = [e for e in rec.events if e["ev"] == "Merge"]
+    # the patch pipeline itself is judged by C30 / C10; here only its result and the merged patch ranges are kept
+    fixed = [{"ev": "Fixed", "out": rebuilt[-1]["out"],
+              "pranges": [[p[0], p[1]] for p in (merged[-1]["merged"] if merged else [])]}] if rebuilt else []
+    events = [{"ev": "Load", "units": uin, "bom": bin_}, {"ev": "Fixes", "ranges": [list(r) for r in uniq]}] + fixed + \
+             [{"ev": "Write", "units": uout, "bom": bout, "rewritten": rewritten}]
     return {"id": tid, "src": P.cps(src) if src is not None else [], "lay": [[0, len(src or ""), "literal"]], "jj01": False,
             "enc": enc.lower(), "events": events, "attrs": spec["attrs"], "entry": entry, "name": spec["name"],
             "data_hex": spec["data"].hex(), "after_hex": after.hex(), "cfg_encoding": spec["cfg_encoding"],
             "rewritten": rewritten, "changed": bool(rebuilt) and rebuilt[-1]["out"] != P.cps(src or ""),
-            "inode_changed": st0.st_ino != st1.st_ino}
+            "inode_changed": st0.st_ino != st1.st_ino, "rules": spec.get("rules"), "cfg_extra": spec.get("cfg_extra"),
+            "src_text": src, "fix_ranges": [list(r) for r in uniq],
+            "merged_patches": [[p[0], p[1], "".join(map(chr, p[2])), p[3]] for p in (merged[-1]["merged"] if merged else [])],
+            "raw_slices": P.layout_of(rec.tfs[0]) if rec.tfs else []}
 
 
 def _worker(item):
@@ -192,12 +277,39 @@ def _worker(item):
 def classify(t, r) -> dict:
     a = t["attrs"]
     sig = {"level": "bytes", "entry": t["entry"], "enc": a["enc"], "kind": a["kind"], "undecodable_input": a["bad"] is not None}
+    if a["kind"] == "templated":
+        # classification for known-finding matching only: which kind of patch carried the change outside the fix ranges
+        sig = {"level": "bytes", "kind": "templated", "templater": a.get("templater")}
+        sig.update(describe_templated(t))
     if r["clause"] == "UndecodableBytesPreserved":
         after = bytes.fromhex(t["after_hex"])
         bad = bytes.fromhex(a["bad"]) if a["bad"] else b""
         esc = "".join("\\x%02x" % b for b in bad).encode()
         sig["written_as"] = "escape-text" if esc[:4] in after else ("same-bytes" if bad in after else "other")
     return sig
+
+
+def describe_templated(t) -> dict:
+    """Attributes of the merged patches that lie (partly) outside every fix range (signature only)."""
+    n = len(t["src_text"] or "")
+    fr = t["fix_ranges"]
+    nonlit = [(a, b, ty) for a, b, ty in t["raw_slices"] if ty != "literal"]
+    for s0, s1, txt, cat in t["merged_patches"]:
+        if s0 > s1:
+            return {"patch_defect": "start>stop", "patch_cat": cat}
+        if s1 > n:
+            return {"patch_defect": "out-of-range", "patch_cat": cat}
+    for s0, s1, txt, cat in t["merged_patches"]:
+        inside = any(a <= s0 and s1 <= b for a, b in fr) or (s0 == s1 and any(s0 in (a, b) for a, b in fr))
+        if not inside:
+            if s0 == s1:
+                in_tag = any(a < s0 < b for a, b, _ in nonlit)
+                at_tag = any(s0 in (a, b) for a, b, _ in nonlit)
+                return {"patch_defect": "insert-outside-fix-ranges", "patch_cat": cat,
+                        "where": "inside-tag" if in_tag else ("tag-boundary" if at_tag else "literal")}
+            touches = sorted({ty for a, b, ty in nonlit if max(a, s0) < min(b, s1)})
+            return {"patch_defect": "edit-outside-fix-ranges", "patch_cat": cat, "touches": ",".join(touches)}
+    return {"patch_defect": None}
 
 
 def run(tier: str, seed: int) -> int:
@@ -216,6 +328,13 @@ def run(tier: str, seed: int) -> int:
         items.append((dict(spec, data=spec["data"].hex()), entry, f"b{k}_{entry}"))
         if tier == "thorough" and k % 5 == 0:
             items.append((dict(spec, data=spec["data"].hex()), "cli" if entry == "api" else "api", f"b{k}_x"))
+    # templated files: the same byte / character contract against the ranges the fixes edit
+    ntempl = 160 if tier == "quick" else 1600
+    pool = templated_pool(ntempl, rnd)
+    for k in range(ntempl):
+        spec = make_templated(k, rnd, pool)
+        entry = "api" if k % 4 else "cli"
+        items.append((dict(spec, data=spec["data"].hex()), entry, f"t{k}_{entry}"))
     traces = par.pmap(_worker, items, chunksize=4)
     good = [t for t in traces if "events" in t]
     rep.evaluated(len(traces))
@@ -223,7 +342,7 @@ def run(tier: str, seed: int) -> int:
     rep.extra["runs_crashed_or_skipped"] = [(t["id"], t["skip"][:160], t["attrs"]) for t in traces if "skip" in t][:8]
     if len(good) < 0.8 * len(traces):
         raise MachineryError(f"only {len(good)} of {len(traces)} byte-level runs completed: {rep.extra['runs_crashed_or_skipped'][:3]}")
-    val = validate_traces("PatchesTrace", [P.wire(t) for t in good], batch=1000, timeout=1800, constants=TCONST)
+    val = validate_traces("PatchesTrace", [P.wire(t) for t in good], batch=1000, timeout=1800, constants=TCONST, extra_env=XSS)
     rep.validation(val, "PatchesTrace")
     by = {t["id"]: t for t in good}
     cover = {}
@@ -241,11 +360,13 @@ def run(tier: str, seed: int) -> int:
             rep.extra.setdefault("rejected_for_other_property", []).append([r["id"], r["clause"]])
             continue
         rep.violation(r["clause"], classify(t, r),
-                      f"{t['entry']} fix of {t['name']} (encoding={t['cfg_encoding'] or 'autodetect'} -> {t['enc']}): bytes before "
+                      f"{t['entry']} fix of {t['name']} (rules={t.get('rules') or 'LT01,LT12,CP01,CP02'}, encoding={t['cfg_encoding'] or 'autodetect'} -> {t['enc']}, "
+                      f"fix ranges {t['fix_ranges']}, merged patches {t['merged_patches']}): bytes before "
                       f"{bytes.fromhex(t['data_hex'])!r} after {bytes.fromhex(t['after_hex'])!r} rejected at event {r['step']} "
                       f"({t['events'][r['step'] - 1]['ev']}): {r['clause']}",
                       {"kind": "bytes", "spec": {"name": t["name"], "data": t["data_hex"], "cfg_encoding": t["cfg_encoding"],
-                                                 "kind": t["attrs"]["kind"], "attrs": t["attrs"]}, "entry": t["entry"], "verdict": r})
+                                                 "kind": t["attrs"]["kind"], "attrs": t["attrs"], "rules": t.get("rules"),
+                                                 "cfg_extra": t.get("cfg_extra")}, "entry": t["entry"], "verdict": r})
     if good:
         t = next((t for t in good if t["attrs"]["enc"].startswith("utf-16") and t["rewritten"]), good[0])
         rep.sample({"name": t["name"], "entry": t["entry"], "enc": t["enc"], "before": repr(bytes.fromhex(t["data_hex"])),
@@ -266,7 +387,7 @@ def replay(path, tier, seed):
     rep = Report(PROP, tier, seed, "exploration")
     t = _worker((case["spec"], case["entry"], "replay"))
     if "events" in t:
-        val = validate_traces("PatchesTrace", [P.wire(t)], constants=TCONST)
+        val = validate_traces("PatchesTrace", [P.wire(t)], constants=TCONST, extra_env=XSS)
         for r in val.rejected:
             if r["clause"] in TRACE_CLAUSES:
                 rep.violation(r["clause"], {}, f"{t['name']}: after {bytes.fromhex(t['after_hex'])!r}: {r['clause']}", case)
